@@ -46,6 +46,16 @@ def jobs(tier, seed):
                 a2, g2 = T.mention_patterns(i2, o2, style, rng)
                 mode = "adversarial" if (n == 3 and rng.random() < 0.35) else "obedient"
                 out.append({"kind": f"{op}:{n}vars:{mode}", "op": op, "mode": mode, "topo": [list(p) for p in tp], "lists": {"a1": a1, "g1": g1, "a2": a2, "g2": g2}, "alias": False})
+    # feedback where only ONE side's assumptions constrain a driven input (each of the two guard conditions alone)
+    cyc = [["i", "o"], ["o", "i"], ["i", "-"], ["-", "i"]]  # v0: q drives p; v1: p drives q; v2: input of p; v3: input of q
+    for a1, a2 in ((["v2"], ["v1"]), (["v0"], ["v3"]), (["v2"], ["v1", "v3"]), (["v0", "v2"], ["v3"]), (["v2"], ["v3"])):
+        for mode in ("obedient", "adversarial", "adversarial"):
+            lists = {"a1": [a1], "g1": [["v1", "v2"]], "a2": [a2], "g2": [["v0", "v3"]]}
+            out.append({"kind": f"compose:feedback-one-sided:{mode}", "op": "compose", "mode": mode, "topo": cyc, "lists": lists, "alias": False})
+            # the same pair in the other call order
+            swapped = [[b, a] for a, b in cyc]
+            lists2 = {"a1": [a2], "g1": [["v0", "v3"]], "a2": [a1], "g2": [["v1", "v2"]]}
+            out.append({"kind": f"compose:feedback-one-sided:{mode}", "op": "compose", "mode": mode, "topo": swapped, "lists": lists2, "alias": False})
     # single-contract operations: constructor with ill-formed arguments, rename, copy, refines across interfaces
     for tp in T.topologies(3):
         i1, o1 = T.interface(tp, 0)
